@@ -10,7 +10,8 @@ import env
 import gen
 import oracles
 from fakes import MISSING, World
-from boracles import unit_buf_twin, unit_c07_scenarios, unit_buf_conflict  # noqa: F401  (work units)
+from boracles import unit_buf_twin, unit_c07_scenarios, unit_buf_conflict
+from c08 import unit_c08_trace, unit_c08_crash, unit_c08_unserialisable  # noqa: F401  # noqa: F401  (work units)
 
 _md = None
 
